@@ -165,6 +165,17 @@ def judge(case: dict[str, Any]) -> Judgement:
                second=np.asarray(gres2.evaluations.perturbed_variables)[0][:3])
     if not np.array_equal(evaluator.calls[1].variables, evaluator.calls[0].variables):
         j.fail("second-evaluation-rows-differ")
+    # functions at a nearly tied point (2e-6 relative away, inside the bounds), then a gradient-only request at the point
+    # itself: the perturbations are built around the requested point, not around the nearby one
+    delta = 2e-6 * (1.0 + np.abs(x_opt))
+    ub_opt = np.asarray(config.variables.upper_bounds, dtype=np.float64)
+    nearby = np.where(x_opt + delta <= ub_opt, x_opt + delta, x_opt - delta)
+    ens.calculate(nearby, compute_functions=True, compute_gradients=False)
+    results3 = ens.calculate(x_opt, compute_functions=False, compute_gradients=True)
+    gres3 = next(item for item in results3 if isinstance(item, GradientResults))
+    if not np.array_equal(np.asarray(gres3.evaluations.perturbed_variables), np.asarray(gres.evaluations.perturbed_variables)):
+        j.fail("gradient-after-functions-at-a-nearby-point-perturbed-differently", first=np.asarray(gres.evaluations.perturbed_variables)[0][:3],
+               later=np.asarray(gres3.evaluations.perturbed_variables)[0][:3])
     j.outcome = f"bt={s0['btype']}{s1['btype']}/bk={s0['bk'][0]}{s1['bk'][0]}/pt={s0['ptype']}{s1['ptype']}"
     return j
 
